@@ -160,11 +160,20 @@ def run(R):
         lp = PR.loop_of(pin, fs[0].bb)
         uo = [c for c in pin.calls if short(c.name) == "core::result::Result::unwrap_or" and c.args and
               any(o.kind == "call" and o.call is fs[0] for o in F.origins(pin, c.args[0], depth=3))]
-        guard = any("any_json_columns" in place_fields(s["rv"]["op"]["pl"]) for i, s in pin.stmts()
-                    if s["k"] == "assign" and s["rv"]["k"] == "use" and s["rv"]["op"]["k"] in ("copy", "move"))
-        if lp is None and uo and guard:
-            R.ok("C02.total", "ParsingInput::new", "serde_json::from_str(line).unwrap_or(Null), once, under any_json_columns", fs[0].loc())
+        # whether the line is parsed may depend on the table definition only, never on the text of the line
+        line_args = [a for a in range(1, pin.arg_count + 1) if pin.local_ty(a) in ("&str", "&'a str", "&alloc::string::String")]
+        T, sinks, _ = F.forward_taint(pin, lambda pl: pl.get("l") in line_args)
+        gds = F.guards_dominating(pin, fs[0].bb)
+        by_line = [gsw for gsw, lab, tgt in gds if gsw in sinks]
+        if lp is not None or not uo:
+            R.violation("C02.total", "ParsingInput::new|shape", "JSON parse: in loop=%s, consumed by unwrap_or=%s" % (lp is not None, bool(uo)),
+                        [fs[0].loc()])
+        elif by_line:
+            R.violation("C02.total", "ParsingInput::new|line-dependent",
+                        "whether a line is parsed as JSON depends on the text of the line (guard at line %d), not only on the table definition: "
+                        "a valid document the guard does not anticipate yields NULL / DEFAULT for every JSON column although the value exists"
+                        % pin.blocks[by_line[0]]["term"]["span"]["line"], [pin.loc(by_line[0]), fs[0].loc()])
         else:
-            R.violation("C02.total", "ParsingInput::new|shape", "JSON parse: in loop=%s, consumed by unwrap_or=%s, guarded by any_json_columns=%s"
-                        % (lp is not None, bool(uo), guard), [fs[0].loc()])
+            R.ok("C02.total", "ParsingInput::new", "serde_json::from_str(line).unwrap_or(Null), once; parsed or not depending on the table "
+                                                   "definition only (%d guards)" % len(gds), fs[0].loc())
     R.assume("serde_json's number model (u64 > i64::MAX, duplicate keys, recursion limit) is the library's; purity of extraction is decided under C01.pure")
